@@ -84,7 +84,7 @@ func c08Run(c *Ctx) {
 		enumTokenSeqs(c, coreAlphabet(), 5, "coreseq", judge)
 	}
 	// 2. every string of <= n lexical fragments
-	frags := []string{K["var"], K["print"], K["if"], K["fun"], "a", "ক", B["len"], "1", "২", `"s"`, "+", "-", "*", "/", "=", "==", "!", "<", "(", ")", "{", "}", "[", "]", ",", ".", ";", ":", "\"", "//", "/*", "*/", "@", "#", "\n", " ", K["true"], "nil", K["else"], K["return"]}
+	frags := []string{K["var"], K["print"], K["if"], K["fun"], "a", "ক", B["len"], "1", "২", `"s"`, "+", "-", "*", "/", "=", "==", "!", "<", "(", ")", "{", "}", "[", "]", ",", ".", ";", ":", "\"", "//", "/*", "*/", "@", "#", "\x00", "\n", " ", K["true"], "nil", K["else"], K["return"]}
 	maxF := c.N(3, 4)
 	var rec func(prefix string, depth int)
 	rec = func(prefix string, depth int) {
@@ -122,6 +122,16 @@ func c08Run(c *Ctx) {
 			}
 			if c.Mine() {
 				judge(&Case{Gen: "prefix-truncation", Src: prefix})
+			}
+		}
+	}
+	// 3b. assignment targets: every left-side form, plain and parenthesised, in statement,
+	// nested and argument position (a target must be a name or end in [ ] / .name)
+	lhs := []string{"a", "(a)", "((a))", "a[0]", "(a[0])", "a.k", "(a.k)", "a[0].k", "a.k[0]", "f()", "f().k", "f()[0]", "(f()).k", "1", "(1)", `"s"`, "nil", K["true"], "a + b", "(a + b)", "- a", "! a", "[a]", "[a][0]", "({k: 1})", "({k: 1}).k", "a = b", "(a = b)", "a.k = b", B["len"], "(" + B["len"] + ")", B["len"] + "()", "a || b", "a == b"}
+	for _, l := range lhs {
+		for _, form := range []string{"%s = 1;", "%s = b = 2;", "b = %s = 3;", "f(b = %s = 4);", K["print"] + " %s = 5;", K["var"] + " v = %s = 6;", "[%s = 7];", K["if"] + " (%s = 8) b;", "%s\n=\n9;", "%s = ;", "%s = 1"} {
+			if c.Mine() {
+				judge(&Case{Gen: "assignment-targets", Src: fmt.Sprintf(form, l)})
 			}
 		}
 	}
@@ -321,7 +331,7 @@ func init() {
 		Run:         c08Run,
 		Judge:       c08Judge,
 		MustCount: func(c *Ctx) []string {
-			return []string{"accepted", "rejected_syntax", "rejected_lexical", "rejected_assign_target", "gen:nothing-runs", "gen:deep-nest", "gen:param-limit", "gen:reserved-names", "cli_rejected_clean", "gen:prefix-extension"}
+			return []string{"accepted", "rejected_syntax", "rejected_lexical", "rejected_assign_target", "gen:nothing-runs", "gen:deep-nest", "gen:param-limit", "gen:reserved-names", "gen:assignment-targets", "cli_rejected_clean", "gen:prefix-extension"}
 		},
 	})
 }
